@@ -1,6 +1,7 @@
 import NitroVerif.Lemmas.CheckTsValue
 import NitroVerif.Lemmas.CheckTsRec
 import NitroVerif.Lemmas.CheckTsUnique
+import NitroVerif.Lemmas.CheckTsRecSpec
 /-!
 # C05 — schema `check` verdict is exact on the implemented type-system rules
 
@@ -509,15 +510,22 @@ def nestedRecursionSchema : TsDoc :=
    .typeDef { kind := .input, name := "In2",
               inputs := [{ name := "a", ty := .named "Int" {}, dirs := [{ name := "r" }] }] }]
 
-/-- The full statement `checkSchema T = [] → Holds_noRecursiveDirectives T` is FALSE of the code: a
-    directive that references itself through the input fields of its argument's type is accepted
-    (open finding `sound:directive-recursion@through-nested-input-field`). -/
-theorem C05_sound_noRecursiveDirectives_counterexample :
-    checkSchema nestedRecursionSchema = [] ∧ ¬ Holds_noRecursiveDirectives nestedRecursionSchema := by
+/-- PRE-REPAIR witness (before fix 2e4a65e): the statement `accepted → Holds_noRecursiveDirectives` was FALSE of the
+    code. `checkSchemaOldRec` is the checker with `directives_in_type` as it was (only the directives inside the
+    argument's OWN type were followed): it accepts the schema above, in which `@r` references itself through the
+    input fields of its argument's type (former open finding
+    `sound:directive-recursion@through-nested-input-field`). -/
+theorem C05_sound_noRecursiveDirectives_prerepair_witness :
+    checkSchemaOldRec nestedRecursionSchema = [] ∧ ¬ Holds_noRecursiveDirectives nestedRecursionSchema := by
   unfold Holds_noRecursiveDirectives; decide
 
+/-- … and the repaired checker (fix 2e4a65e: `directives_in_type` follows the types of input-object fields
+    transitively) reports it, at the directive definition. -/
+theorem C05_nested_recursion_reported :
+    checkSchema nestedRecursionSchema = [(.RecursingDirective, {})] := by decide
+
 /-- A directive definition that applies itself to one of its own arguments is reported
-    (the simplest instance of the recursion rule; the general statement is in the OPEN block). -/
+    (the simplest instance of the recursion rule). -/
 theorem C05_directive_self_reference_reported :
     checkSchema
       [.typeDef { kind := .scalar, name := "Int" },
@@ -525,12 +533,35 @@ theorem C05_directive_self_reference_reported :
                        locations := ["ARGUMENT_DEFINITION"] }] =
       [(.RecursingDirective, {})] := by decide
 
+/-- What `directives_in_type` returns since fix 2e4a65e, for the definition `t` the checker's hash map holds for the
+    type of an argument: exactly the directives applied inside `t` (type level, fields, enum values, input fields —
+    `directivesInTypeOld`, all the function returned before the fix) and inside every type reached from `t` by following
+    the types of input-object fields any number of steps (`InReach`). The `seen_types` set makes every input object
+    contribute once; it never cuts off a type that is reached. -/
+theorem C05_directivesInType_exact (T : TsDoc) (t : TypeDef) (hc : TCanonical T t) (d : Directive) :
+    d ∈ directivesInType T t ↔
+      ∃ m u, InReach T t.name m ∧ lastTypeDef? T m = some u ∧ d ∈ directivesInTypeOld u :=
+  mem_directivesInType_iff T t hc d
+
+example : TCanonical nestedRecursionSchema { kind := .input, name := "In", inputs := [{ name := "n", ty := .named "In2" {} }] } :=
+  tcanonical_of_lookup (n := "In") (by rfl)
+
+/-- The walk through nested input objects never exhausts the `|T| + 1` nesting levels of fuel of its model: run with
+    any fuel `n ≥ |T| + 1` and ANY behaviour `Z` of the out-of-fuel branch it returns what `directivesInType` returns
+    (every nested call that does not return at once has put a new input-object name of the document into
+    `seen_types`). -/
+theorem C05_directivesInType_fuel (T : TsDoc) (Z : TypeDef → List Name → List Directive × List Name)
+    (n : Nat) (hn : T.length + 1 ≤ n) (t : TypeDef) (hc : TCanonical T t) :
+    (ditWalkX T Z n t []).1 = directivesInType T t :=
+  directivesInType_fuel T Z n hn t hc
+
 /-- `check_directive_recursion` is exact on the graph it explores. The graph (`succNames`, on directive
     names): `a → b` when `@b` is applied to an argument of the definition of `@a`, or anywhere inside the
-    definition of the TYPE of such an argument (type-level, its fields, enum values or input fields — one
-    level deep, not through the types of those input fields). `RecursingDirective` is reported for `d`
-    exactly when `d` reaches itself along at least one edge; the search never runs out of its `|T| + 2`
-    rounds of fuel. Stated for the definition the checker's hash map holds for its name … -/
+    definition of the TYPE of such an argument (type-level, its fields, enum values or input fields) or — since fix
+    2e4a65e — inside the definition of a type reached from it through the types of input-object fields, transitively
+    (`C05_directivesInType_exact`). `RecursingDirective` is reported for `d` exactly when `d` reaches itself along at
+    least one edge; the search never runs out of its `|T| + 2` rounds of fuel. Stated for the definition the checker's
+    hash map holds for its name … -/
 theorem directiveRec_iff_canonical (T : TsDoc) (d : DirectiveDef) (hc : Canonical T d) :
     checkDirectiveRecursion T d ≠ [] ↔ Reaches T d.name d.name :=
   checkDirectiveRecursion_iff T d hc
@@ -544,11 +575,43 @@ theorem directiveRec_iff (T : TsDoc) (d : DirectiveDef) (hd : d ∈ ValidTs.dire
 example : uniqueDirectiveNames nestedRecursionSchema = true ∧
     (nestedRecursionSchema.filterMap fun | .directiveDef d => some d.name | _ => none) = ["r"] := by decide
 
+/-- The recursion rule is EXACT (since fix 2e4a65e). On a document with unique type and directive names whose
+    arguments and input fields have input types (the specification's `inputPositions` rule; an accepted document has
+    all three — `C05_sound_noRecursiveDirectives`), `RecursingDirective` is reported for the directive definition `d`
+    if and only if `d` transitively references itself in the reference graph of the SPECIFICATION (`refs`: a directive
+    definition references the directives applied to its arguments and the types of its arguments; a type references the
+    directives applied inside it and the types of its input fields). -/
+theorem C05_recursion_exact (T : TsDoc) (hut : uniqueTypeNames T = true) (hud : uniqueDirectiveNames T = true)
+    (hin : inputPositions T = true) (d : DirectiveDef) (hd : d ∈ ValidTs.directiveDefs T) :
+    checkDirectiveRecursion T d ≠ [] ↔ SpecReaches ⟨T⟩ (.dir d.name) (.dir d.name) :=
+  (directiveRec_iff T d hd hud).trans (reaches_iff_specReaches hut hud hin hd)
+
+example : uniqueTypeNames nestedRecursionSchema = true ∧ uniqueDirectiveNames nestedRecursionSchema = true ∧
+    inputPositions nestedRecursionSchema = true := by decide
+
+/-- `directive @r(x: Obj) on ARGUMENT_DEFINITION   type Obj { f(a: Int @r): Int }` -/
+def objectArgRecursionSchema : TsDoc :=
+  [.typeDef { kind := .scalar, name := "Int" },
+   .directiveDef { name := "r", args := [{ name := "x", ty := .named "Obj" {} }],
+                   locations := ["ARGUMENT_DEFINITION"] },
+   .typeDef { kind := .object, name := "Obj",
+              fields := [{ name := "f", ty := .named "Int" {},
+                           args := [{ name := "a", ty := .named "Int" {}, dirs := [{ name := "r" }] }] }] }]
+
+/-- Why `C05_recursion_exact` needs `inputPositions`: when an OBJECT type stands in argument position, the
+    specification's graph also counts the directives on the arguments of its fields, which `directives_in_type` does
+    not collect — the recursion rule is violated, `RecursingDirective` is not reported. The document is rejected all
+    the same (`NoOutputType` for the argument), so soundness of the verdict is not affected
+    (`C05_sound_noRecursiveDirectives`). -/
+theorem C05_recursion_exact_needs_inputPositions :
+    uniqueTypeNames objectArgRecursionSchema = true ∧ uniqueDirectiveNames objectArgRecursionSchema = true ∧
+    inputPositions objectArgRecursionSchema = false ∧ noRecursiveDirectives objectArgRecursionSchema = false ∧
+    checkSchema objectArgRecursionSchema = [(.NoOutputType, {})] := by decide
+
 /-- In an accepted document (built-in-position directive definitions pairwise distinct and not re-declared, so
     that directive names are unique: `C05_unique_directive_names_all`) no directive definition reaches itself in the
-    reference graph the code explores. This is the recursion rule restricted to that graph; the rule of the
-    specification also follows the types of input fields transitively, and for that graph the statement is
-    false (`C05_sound_noRecursiveDirectives_counterexample`). -/
+    reference graph the code explores (which, since fix 2e4a65e, follows the types of input-object fields
+    transitively). -/
 theorem C05_sound_noRecursiveDirectives_partial (T : TsDoc) (hb : builtinDirectiveNamesDistinct T = true)
     (hr : builtinDirectivesNotRedeclared T = true)
     (h : checkSchema T = []) : ∀ d ∈ ValidTs.directiveDefs T, ¬ Reaches T d.name d.name := by
@@ -560,17 +623,35 @@ theorem C05_sound_noRecursiveDirectives_partial (T : TsDoc) (hb : builtinDirecti
 example : builtinDirectiveNamesDistinct sampleSchema = true ∧ builtinDirectivesNotRedeclared sampleSchema = true ∧
     checkSchema sampleSchema = [] := by decide
 
+/-- SOUNDNESS of the recursion rule, full statement (since fix 2e4a65e): an accepted document — its built-in-position
+    type and directive definitions pairwise distinct and no built-in directive re-declared, so that names are unique
+    (`C05_unique_type_names`, `C05_unique_directive_names_all`) — satisfies the specification's rule "a directive
+    definition must not reference itself directly or indirectly", both as the relation `NoSpecRecursion` and as the
+    executable closure the oracle stream evaluates (`noRecursiveDirectives`). -/
+theorem C05_sound_noRecursiveDirectives (T : TsDoc) (hbt : builtinTypeNamesDistinct T = true)
+    (hb : builtinDirectiveNamesDistinct T = true) (hr : builtinDirectivesNotRedeclared T = true)
+    (h : checkSchema T = []) : NoSpecRecursion T ∧ Holds_noRecursiveDirectives T := by
+  have hud := uniqueDirectiveNames_of_accepted h hb hr
+  have hut := (C05_unique_type_names T h).2.2 hbt
+  have hin : inputPositions T = true := C05_sound_inputPositions T h
+  have hrel : NoSpecRecursion T := by
+    intro d hd hreach
+    exact (C05_recursion_exact T hut hud hin d hd).mpr hreach (directiveDef_parts h hd).1
+  exact ⟨hrel, exec_of_noSpecRecursion hrel⟩
+
+example : builtinTypeNamesDistinct sampleSchema = true ∧ builtinDirectiveNamesDistinct sampleSchema = true ∧
+    builtinDirectivesNotRedeclared sampleSchema = true ∧ checkSchema sampleSchema = [] := by decide
+
 /-
 Nothing of the C05 statement is left OPEN. Completeness (`C05_complete`) is in Props/C05Complete.lean.
 
-Two clauses of the statement are FALSE of the code and therefore proved only in restricted form:
-* `checkSchema T = [] → Holds_noRecursiveDirectives T` (recursion rule of the specification, which follows the
-  types of input fields transitively): counterexample `C05_sound_noRecursiveDirectives_counterexample`; what
-  holds is `C05_sound_noRecursiveDirectives_partial` (the graph the code explores) and `directiveRec_iff`.
+One clause of the statement is FALSE of the code and therefore proved only in restricted form:
 * `checkSchema T = [] → Holds_knownTypes T`: counterexample `C05_sound_knownTypes_counterexample` (root
   operation types); what holds is `C05_sound_knownTypes_partial`.
-Not proved (not needed by any statement): the converse `NoSpecRecursion T → noRecursiveDirectives T = true`
-(every node of the executable closure is reached by the relation).
+The recursion clause `checkSchema T = [] → Holds_noRecursiveDirectives T` was the second one until fix 2e4a65e
+(`C05_sound_noRecursiveDirectives_prerepair_witness`); it is now proved in full (`C05_sound_noRecursiveDirectives`), and
+the rule is exact (`C05_recursion_exact`). The executable closure of the specification and its relational form are
+proved equivalent (`noRecursiveDirectives_iff`, Lemmas/ValidTsClosure.lean).
 -/
 
 end NitroVerif.CheckTs
